@@ -542,10 +542,14 @@ DisconnectStep(S, a) ==
 \* ---------------------------------------------------------------- observation requests: no state change
 GetStep(S, a) == Reply(S, -2)     \* -2: the reply of an observation request is not predicted (its content is judged by the monitors)
 
-Unmodelled(a) == ("obo" \in DOMAIN a /\ a.obo # "")
+Unmodelled(a) == ("obo" \in DOMAIN a /\ a.obo # "") \/ ("t" \in DOMAIN a /\ a.t \notin Topics)
                  \/ ("s" \in DOMAIN a /\ a.s \in RootSessions)
+\* a logged pre-state in which a session lists a topic that is not loaded is outside the model (it cannot arise from Init);
+\* Step stays total: such a step is not predicted (the monitors still judge it)
+Inconsistent(S, a) == "t" \in DOMAIN a /\ a.t \in Topics /\ ~S.cache[a.t].loaded
+                      /\ \E x \in Sessions : a.t \in M(S.sess[x].subs)
 Step(S, a) ==
-  CASE Unmodelled(a)      -> Reply(S, -1)
+  CASE Unmodelled(a) \/ Inconsistent(S, a) -> Reply(S, -1)
     [] a.a = "NewGrp"     -> NewGrpStep(S, a)
     [] a.a = "Sub"        -> SubStep(S, a)
     [] a.a = "Leave"      -> LeaveStep(S, a)
